@@ -863,19 +863,26 @@ pub struct Chunked<'a> {
     data: &'a [u8],
     pos: u64,
     step: usize,
+    calls: u64,
 }
 
 impl<'a> Chunked<'a> {
     pub fn new(data: &'a [u8], step: usize) -> Self {
-        Chunked { data, pos: 0, step: step.max(1) }
+        Chunked { data, pos: 0, step: step.max(1), calls: 0 }
     }
     pub fn at(data: &'a [u8], step: usize, pos: u64) -> Self {
-        Chunked { data, pos, step: step.max(1) }
+        Chunked { data, pos, step: step.max(1), calls: 0 }
     }
 }
 
 impl std::io::Read for Chunked<'_> {
     fn read(&mut self, buf: &mut [u8]) -> std::io::Result<usize> {
+        // `Read` allows a call to fail with ErrorKind::Interrupted without consuming anything (EINTR); callers must
+        // retry, as read_exact does. Readers with step 5 or 113 report it on every third call.
+        self.calls += 1;
+        if (self.step == 5 || self.step == 113) && self.calls % 3 == 2 {
+            return Err(std::io::Error::new(std::io::ErrorKind::Interrupted, "interrupted (injected)"));
+        }
         let start = (self.pos as usize).min(self.data.len());
         let n = buf.len().min(self.step).min(self.data.len() - start);
         buf[..n].copy_from_slice(&self.data[start..start + n]);
